@@ -29,12 +29,13 @@ FUZZ_LIMIT_QUICK = 40
 
 
 def seed_fonts(tier):
-    fs = sorted(f for f in glob.glob(os.path.join(CORPUS, 'synth', '*.ttf')) if not os.path.basename(f).startswith('z'))
+    fs = sorted(f for f in glob.glob(os.path.join(CORPUS, 'synth', '*.ttf')) if os.path.basename(f)[0] not in 'zf')
+    ffs = sorted(glob.glob(os.path.join(CORPUS, 'synth', 'f*.ttf')))          # feature / language / name rich fonts
     zs = sorted(glob.glob(os.path.join(CORPUS, 'synth', 'z*.ttf')))          # LZ4-compressed Silf/Glat twins
     n = SEED_FONTS_QUICK if tier == 'quick' else 40
     # spread over the generated fonts (different Silf / Glat versions)
     step = max(1, len(fs) // n)
-    out = zs[:2 if tier == 'quick' else 8] + fs[::step][:n]
+    out = zs[:2 if tier == 'quick' else 8] + ffs[:3 if tier == 'quick' else 10] + fs[::step][:n]
     out += [os.path.join(REPO, 'tests', 'fonts', 'small.ttf'), os.path.join(REPO, 'tests', 'fonts', 'tiny.ttf')]
     return out
 
